@@ -39,7 +39,7 @@ ASSUMPTIONS = [
 ]
 
 TB_NAME = re.compile(r"^traceback(-\d+)*$")
-TRACEBACK_KINDS = {"fail", "error", "failsub", "mismatch", "kbd", "exit", "kbdsub", "exitsub", "basedirect", "xfail", "xfail_err",
+TRACEBACK_KINDS = {"fail", "error", "failsub", "mismatch", "kbd", "exit", "kbdsub", "exitsub", "basedirect", "genexit", "xfail", "xfail_err",
                    "eqexc", "sameobj", "unhashable", "eqany"}
 
 
